@@ -84,9 +84,11 @@ Definition same_ok (c : case_t) : bool :=
   | None => true
   | Some _ => option_eqb ll_eqb (spec_groups (envof sh) s comb) (spec_groups_pruned (envof sh) s comb)
   end.
+Definition depth_ok (c : case_t) : bool := let '(s, sh, comb, o) := c in type_depth_okb s comb.
 Definition flat_ok (c : case_t) : bool := let '(s, sh, comb, o) := c in flat_innerb s && closedb (linked s comb) s.
 """
 F02 = "F02"
+F02B = "F02b"
 
 
 def coq_groups(gs):
@@ -124,8 +126,7 @@ def observe(tree, shapes, comb, level):
     r = G.run_state(tree, shapes, combiner=comb)
     det = {"exc": r["exc"]}
     if r["state"] is None:
-        msg = r["exc"] or ""
-        if "do not have same shape" in msg:
+        if r["obs"] == ("err", "EShape"):           # classified on the full message (r["exc"] is truncated)
             return ("err", "shape"), None, det
         return ("err", "other"), None, det          # judged in Coq: only a rejected split may fail
     st = r["state"]
@@ -223,14 +224,20 @@ def run(ctx):
         cases.append(coqio.pair(G.to_coq(tree), G.coq_shapes(shapes), G.coq_nats(comb), coq_obs(o)))
         meta.append(m)
     res = coqio.run_cases(ctx.scratch, "c02", IMPORTS, "case_t", cases,
-                          {"tie": "tie_ok", "spec": "spec_ok", "good": "good_ok", "same": "same_ok", "flat": "flat_ok"},
+                          {"tie": "tie_ok", "spec": "spec_ok", "good": "good_ok", "same": "same_ok", "flat": "flat_ok",
+                           "depth": "depth_ok"},
                           extra=EXTRA, shard=400)
     f02_class = set(res["good"])            # cases where good_removalb is false
+    # F02b: end to end only - the declared output nesting (State.depth over the combiner as written) is not the nesting
+    # of the value (State.depth over the linked fields)
+    f02b_class = set(i for i in res["depth"] if meta[i]["level"] == "e2e" and meta[i]["obs"][0] == "err"
+                     and "Incorrect type for field" in (meta[i]["details"].get("exc") or ""))
     out = Outcome(evaluations=len(meta) + len(pyfail), distinct_nontrivial=nontrivial, rule=RULE,
                   samples=[sample(m) for m in pick(meta)], distribution=dist, traces_validated=len(meta),
                   exhaustive=(ctx.tier == "thorough"))
     out.extra["cases_inside_C02_partial_domain"] = len(meta) - len(f02_class)
     out.extra["cases_in_F02_class"] = len(f02_class)
+    out.extra["e2e_cases_in_F02b_class"] = len(f02b_class)
     not_flat = set(res["flat"])
     out.extra["cases_inside_C02_partial_flat_domain"] = len([i for i in range(len(meta)) if i not in f02_class and i not in not_flat])
     out.extra["cases_where_the_two_reference_formulations_differ"] = len(res["same"])
@@ -248,17 +255,18 @@ def run(ctx):
     shown = {True: 0, False: 0}
     for i in sorted(res["spec"], key=lambda i: len(json.dumps(case_json(meta[i])))):
         m = meta[i]
-        in_class = i in f02_class
+        in_class = i in f02_class or i in f02b_class
+        fid = (F02 if i in f02_class else F02B) if in_class else None
         if shown[in_class] >= 4:
             # the expected value is evaluated (one coqc run each) only for the first few failures of each kind
             out.failures.append(Failure(case=case_json(m), observed={"obs": m["obs"]}, expected=None, kind="spec",
-                                        finding=F02 if in_class else None,
+                                        finding=fid,
                                         note="groups differ from the ordered partition by the remaining axes (%s level)" % m["level"]))
             continue
         shown[in_class] += 1
         out.failures.append(Failure(
             case=case_json(m), observed={"obs": m["obs"], **{k: v for k, v in m["details"].items() if k != "out"}},
-            expected=expected(ctx, m, "spec"), kind="spec", finding=F02 if in_class else None,
+            expected=expected(ctx, m, "spec"), kind="spec", finding=fid,
             note="groups differ from the ordered partition by the remaining axes (%s level)" % m["level"]))
         if len(out.failures) > 400:
             break
@@ -271,7 +279,7 @@ def run(ctx):
     for i in res["tie"]:
         # inside the domain of C02_partial the model must agree; in the F02 class the implementation is compared with
         # the spec only (a tie failure there without a spec failure means the defect was repaired)
-        if i in spec_bad or i in f02_class:
+        if i in spec_bad or i in f02_class or i in f02b_class:
             continue
         m = meta[i]
         n_tie += 1
